@@ -420,6 +420,28 @@ def apply_R7(text, stats):
     return out
 
 
+def apply_R9(body, stats):
+    """`for PAT in RECV.iter_out() { BODY }` -> explicit iterator + loop/match (the compiler's own
+    desugaring), in functions that mutate the heap: `next` must see the current heap."""
+    while True:
+        m = mask(body)
+        mm = re.search(r"(?<![\w])for\s+(?P<pat>[^;{}]+?)\s+in\s+(?P<recv>[A-Za-z_][\w\.]*)\s*\.\s*(?P<meth>iter_out|iter_in|iter)\s*\(\s*\)\s*\{", m)
+        if not mm:
+            return body
+        bo = mm.end() - 1
+        bc = match_close(m, bo)
+        n = stats.get("R9", 0) + 1
+        stats["R9"] = n
+        # ordinal of this loop in text order = number of loop keywords before it + 1
+        ordinal = len(re.findall(r"(?<![\w'])(?:for|while|loop)\b", m[:mm.start()])) + 1
+        it = "it%d" % ordinal
+        inner = body[bo + 1:bc]
+        rep = ("let mut %s = %s.%s(); loop { match %s.next() { Some(%s) => {%s} None => break, } }"
+               % (it, body[mm.start("recv"):mm.end("recv")], mm.group("meth"), it, body[mm.start("pat"):mm.end("pat")], inner))
+        body = body[:mm.start()] + rep + body[bc + 1:]
+
+
+
 def find_loops(m):
     """offsets of loop keywords in text order with their header end ('{')"""
     res = []
@@ -578,6 +600,8 @@ def generate(template_path, flavour, repo="/repo", vacuity=False, rules=None):
         body = apply_R5(body, stats)
         body = apply_R7(body, stats)
         guards = []
+        if b.heap == "mut":
+            body = apply_R9(body, stats)
         if b.heap != "none" or CHAIN_RE.search(mask(body)):
             if b.heap == "none":
                 raise ExtractError("%s: adjacency access chain in a function declared heap-free" % b.id)
